@@ -428,8 +428,12 @@ def kv_abort_violation(ctx, journal, rc, features=None):
     p = sh([bin_path("kv", features), "--script", script, "--out", os.path.join(ctx.work, "abort.ndjson")], timeout=600, check=False)
     if p.returncode not in (-6, 134, -11, 139):
         raise ToolError(f"driver died with status {rc} but the journalled script does not reproduce it (status {p.returncode})")
-    what = (f"the process aborts (status {p.returncode}: a panic while panicking, or a crash) inside redb while executing step "
-            f"{json.dumps(steps[-1])[:200]} of a {len(steps)}-step script")
+    wd = [l for l in p.stderr.splitlines() if l.startswith("WATCHDOG:")]
+    if wd:
+        what = f"{wd[-1][10:]} (step {json.dumps(steps[-1])[:200]} of a {len(steps)}-step script; the process was ended)"
+    else:
+        what = (f"the process aborts (status {p.returncode}: a panic while panicking, or a crash) inside redb while executing step "
+                f"{json.dumps(steps[-1])[:200]} of a {len(steps)}-step script")
     sig = "abort:" + hashlib.sha256(json.dumps([cfg, steps], sort_keys=True).encode()).hexdigest()[:16]
     payload.update({"what": what, "signature": sig})
     return Violation(ctx.prop, save_replay(ctx.prop, payload), what, sig)
